@@ -314,7 +314,12 @@ def tie(ctx):
     tr = np.array([_tvec(ctx) for _ in range(n)])
     with warnings.catch_warnings():
         warnings.simplefilter('ignore')
+        snap = (pts3.copy(), rv.copy(), tr.copy())
         out = run(lambda: GS._rotate_translate(pts3, rv, tr))
+    if not all(np.array_equal(a, b) for a, b in zip(snap, (pts3, rv, tr))):
+        dis.append({'what': 'LighthouseGeometrySolver._rotate_translate modifies its argument arrays (the translated '
+                            'trees are pure functions)', 'function': 'solver_rotate_translate'})
+        pts3, rv, tr = (a.copy() for a in snap)
     for i in range(n):
         check('LighthouseGeometrySolver._rotate_translate (row %d of a batch of %d)' % (i, n), 'solver_rotate_translate',
               list(pts3[i]) + list(rv[i]) + list(tr[i]), out if isinstance(out, str) else list(out[i]), F64,
@@ -327,7 +332,12 @@ def tie(ctx):
     sens = np.array([[ctx.rng.uniform(-0.02, 0.02), ctx.rng.uniform(-0.02, 0.02), 0.0] for _ in range(n)])
     with warnings.catch_warnings():
         warnings.simplefilter('ignore')
+        snap = (bs.copy(), cf.copy(), sens.copy())
         out = run(lambda: GS._calc_angle_pairs(bs, cf, sens, defs))
+    if not all(np.array_equal(a, b) for a, b in zip(snap, (bs, cf, sens))):
+        dis.append({'what': 'LighthouseGeometrySolver._calc_angle_pairs modifies its argument arrays (the translated '
+                            'trees are pure functions)', 'function': 'solver_calc_angle_pairs'})
+        bs, cf, sens = (a.copy() for a in snap)
     for i in range(n):
         env = list(bs[i]) + list(cf[i]) + list(sens[i])
         kind = rvs[i][0] + '+' + rvs[perm[i]][0]
@@ -665,6 +675,168 @@ def _oracle_vector_lists(ctx, n, fails):
     return cnt
 
 
+def _oracle_solver_reuse(ctx, n_scenes, fails):
+    """the solver's projection called the way the solver uses it: ONE Crazyflie parameter array and ONE sensor
+    array reused for several base stations and for repeated calls (every least-squares iteration calls
+    _calc_residual with the same arrays).  Every call must equal the Pose + from_cart projection and no argument
+    may be modified.  Also _rotate_translate twice on the same arrays, _poses_to_angle_pairs with index arrays and
+    _calc_residual (= 0 for exact target angles), _params_to_pose/_pose_to_params round trip."""
+    import numpy as np
+    from cflib.localization.lighthouse_geometry_solver import LighthouseGeometrySolver as GS
+    from cflib.localization.lighthouse_geometry_solver import LighthouseGeometrySolution
+    from cflib.localization.lighthouse_types import LhDeck4SensorPositions, Pose
+    defs = LighthouseGeometrySolution()
+    S = np.array(LhDeck4SensorPositions.positions, dtype=float)
+    N = S.shape[0]
+    cnt = 0
+    rv_all = rotvecs(ctx, 3 * n_scenes)
+    for sc in range(n_scenes):
+        kcf, rcf = rv_all[ctx.rng.randrange(len(rv_all))]
+        cf6 = list(rcf) + [ctx.rng.uniform(-1, 1), ctx.rng.uniform(-1, 1), ctx.rng.uniform(0, 1)]
+        bss = []
+        for b in range(ctx.rng.choice((2, 3, 4))):
+            kb, rb = rv_all[ctx.rng.randrange(len(rv_all))]
+            bss.append((kb, list(rb) + [ctx.rng.uniform(-4, -1.5), ctx.rng.uniform(-2, 2), ctx.rng.uniform(0.5, 3)]))
+        case = {'fn': 'solver_reuse', 'cf': cf6, 'bs': [b for _, b in bss], 'kinds': [kcf] + [k for k, _ in bss]}
+        cnt += 2 * len(bss) + 4
+        for f in _solver_reuse_case(case, np, GS, defs, S, N, Pose):
+            _fail(fails, f[0], case, f[1], f[2], f[3])
+    return cnt
+
+
+def _solver_reuse_case(case, np, GS, defs, S, N, Pose):
+    """returns a list of (class, expected, observed, detail): at most one argument-mutation report and the first
+    disagreement (the run continues with the arrays as the code left them, as the solver would)"""
+    out = []
+    try:
+        f = _solver_reuse_run(case, np, GS, defs, S, N, Pose, out)
+        if f:
+            out.append(f)
+    except Exception as e:  # noqa
+        out.append(('paths_raises', 'no exception', repr(e), 'solver projection raised'))
+    return out
+
+
+def _solver_reuse_run(case, np, GS, defs, S, N, Pose, out):
+    cf6 = np.array(case['cf'], dtype=float)
+    mutated = []
+    if True:
+        cf_params = np.tile(cf6, (N, 1))            # built once, reused for every base station and every call
+        cf_orig = cf_params.copy()
+        sens = S.copy()
+        exp_all = []
+        for rnd in range(2):                         # two sweeps over the base stations = two solver iterations
+            for bi, b6 in enumerate(case['bs']):
+                b6 = np.array(b6, dtype=float)
+                bs_params = np.tile(b6, (N, 1))
+                bs_orig = bs_params.copy()
+                with warnings.catch_warnings():
+                    warnings.simplefilter('ignore')
+                    got = GS._calc_angle_pairs(bs_params, cf_params, sens, defs)
+                if not mutated and not (np.array_equal(cf_params, cf_orig) and np.array_equal(bs_params, bs_orig)
+                                        and np.array_equal(sens, S)):
+                    mutated.append(1)
+                    out.append(('solver_mutates_arguments', {'cf': cf_orig[0].tolist(), 'bs': bs_orig[0].tolist()},
+                                {'cf': cf_params[0].tolist(), 'bs': bs_params[0].tolist(), 'call': [rnd, bi]},
+                                '_calc_angle_pairs must not modify the parameter arrays it is given (they are reused)'))
+                for i in range(N):
+                    exp, p = _types_angle_pair(b6, cf6, S[i])
+                    if math.hypot(p[0], p[1]) < 1e-4 or math.hypot(p[0], p[2]) < 1e-4:
+                        continue
+                    for a, e in zip(got[i], exp):
+                        dd = abs(float(a) - e)
+                        if not min(dd, abs(dd - 2 * math.pi)) <= 1e-9:
+                            return ('projection_paths_disagree_on_reuse' if (rnd, bi) != (0, 0) else 'projection_paths_disagree',
+                                    exp, [float(x) for x in got[i]],
+                                    'call %d/base station %d with the same Crazyflie array: solver projection must equal '
+                                    'the Pose/from_cart projection' % (rnd, bi))
+        # the building block twice on the same arrays
+        rot = np.tile(cf6[:3], (N, 1))
+        tr = np.tile(cf6[3:], (N, 1))
+        rot0, tr0 = rot.copy(), tr.copy()
+        P = Pose.from_rot_vec(cf6[:3], cf6[3:])
+        want = np.array([P.rotate_translate(x) for x in S])
+        for k in range(2):
+            with warnings.catch_warnings():
+                warnings.simplefilter('ignore')
+                pts = GS._rotate_translate(sens, rot, tr)
+            if not mutated and not (np.array_equal(rot, rot0) and np.array_equal(tr, tr0) and np.array_equal(sens, S)):
+                mutated.append(1)
+                out.append(('solver_mutates_arguments', rot0[0].tolist(), rot[0].tolist(),
+                            '_rotate_translate must not modify its arguments'))
+            if not float(np.max(np.abs(pts - want))) <= 1e-9 * (1 + float(np.max(np.abs(want)))):
+                return ('projection_paths_disagree_on_reuse' if k else 'projection_paths_disagree', want.tolist(), pts.tolist(),
+                        '_rotate_translate call %d must equal Pose.rotate_translate' % (k + 1))
+        # the solver's own entry points: index arrays, residual for exact target angles, twice
+        nb = len(case['bs'])
+        defs2 = type(defs)()
+        defs2.n_bss, defs2.n_cfs, defs2.n_cfs_in_params, defs2.n_sensors = nb, 2, 1, N
+        bs_arr = np.array(case['bs'], dtype=float)
+        idx_bs = np.repeat(np.arange(nb), N)
+        idx_bs = np.concatenate((idx_bs, idx_bs))
+        idx_cf = np.concatenate((np.zeros(nb * N, dtype=int), np.ones(nb * N, dtype=int)))
+        idx_s = np.tile(np.arange(N), 2 * nb)
+        cfs_full = np.array([[0.0] * 6, list(cf6)])
+        target, well = [], []
+        for j in range(len(idx_bs)):
+            exp, p = _types_angle_pair(bs_arr[idx_bs[j]], cfs_full[idx_cf[j]], S[idx_s[j]])
+            target += exp
+            well += [math.hypot(p[0], p[1]) >= 1e-4, math.hypot(p[0], p[2]) >= 1e-4]   # atan2 well conditioned
+        target, well = np.array(target), np.array(well)
+        params = np.hstack((bs_arr.ravel(), cf6))
+        params0 = params.copy()
+        for k in range(2):
+            with warnings.catch_warnings():
+                warnings.simplefilter('ignore')
+                res = GS._calc_residual(params, defs2, idx_bs, idx_cf, idx_s, target, S)
+            if not mutated and not np.array_equal(params, params0):
+                mutated.append(1)
+                out.append(('solver_mutates_arguments', params0.tolist(), params.tolist(), '_calc_residual must not modify params'))
+            bad = float(np.max(np.abs(res[well]))) if well.any() else 0.0      # tan(diff) * distance, metres
+            if not bad <= 1e-8:
+                return ('projection_paths_disagree_on_reuse' if k else 'projection_paths_disagree', 0.0, bad,
+                        '_calc_residual call %d must vanish when the target angles are the Pose/from_cart angles' % (k + 1))
+        # parameter <-> Pose conversion
+        th = float(np.linalg.norm(cf6[:3]))
+        if th < math.pi - 1e-3:
+            back = GS._pose_to_params(GS._params_to_pose(cf6, defs))
+            if not float(np.max(np.abs(back - cf6))) <= 1e-9:
+                return ('views_disagree', cf6.tolist(), back.tolist(), '_pose_to_params(_params_to_pose(p)) must be p for |r| < pi')
+    return None
+
+
+def _oracle_pose_misc(ctx, n, fails):
+    """Pose.scale, matrix_vec, and: no Pose method modifies its arguments"""
+    import numpy as np
+    from cflib.localization.lighthouse_types import Pose
+    from scipy.spatial.transform import Rotation
+    cnt = 0
+    for _ in range(n):
+        r, t, x, k = _tvec(ctx, 1.5), _tvec(ctx), _tvec(ctx, 5.0), ctx.rng.uniform(0.1, 4.0)
+        case = {'fn': 'pose_misc', 'r': r, 't': t, 'x': x, 'k': k}
+        try:
+            R = Rotation.from_rotvec(r).as_matrix()
+            R0, t0, x0 = R.copy(), np.array(t), np.array(x)
+            ta, xa = t0.copy(), x0.copy()
+            P = Pose(R, ta)
+            Q = Pose(R.T.copy(), xa.copy())
+            Rm, tv = P.matrix_vec
+            ok = np.array_equal(Rm, R0) and np.array_equal(tv, t0)
+            P.rotate_translate(xa); P.inv_rotate_translate(xa); P.rotate_translate_pose(Q); P.inv_rotate_translate_pose(Q)
+            ok = ok and np.array_equal(R, R0) and np.array_equal(ta, t0) and np.array_equal(xa, x0) and \
+                np.array_equal(P.rot_matrix, R0) and np.array_equal(P.translation, t0) and \
+                np.array_equal(Q.rot_matrix, R0.T) and np.array_equal(Q.translation, x0)
+            if not ok:
+                _fail(fails, 'pose_mutates_arguments', case, 'unchanged', 'changed', 'Pose methods must not modify poses or points')
+            P.scale(k)
+            if not (np.array_equal(P.rot_matrix, R0) and float(np.max(np.abs(P.translation - k * t0))) <= 1e-12 * (1 + k * 3)):
+                _fail(fails, 'pose_scale', case, (k * t0).tolist(), P.translation.tolist(), 'scale must scale the translation only')
+            cnt += 3
+        except Exception as e:  # noqa
+            _fail(fails, 'pose_raises', case, 'no exception', repr(e), 'pose operation raised')
+    return cnt
+
+
 def _corpus(ctx):
     import glob
     import json
@@ -700,6 +872,8 @@ def oracle(ctx, deep=False):
         n += _oracle_pose(kind + '+' + k2 + '+' + k3, list(r), _tvec(ctx), list(r2), _tvec(ctx), list(r3), _tvec(ctx),
                           _tvec(ctx, 5.0), fails)
     n += _oracle_paths(_path_rows(ctx, 60000 if big else 4000), fails)
+    n += _oracle_solver_reuse(ctx, 3000 if big else 300, fails)
+    n += _oracle_pose_misc(ctx, 3000 if big else 300, fails)
     n += _oracle_vector_lists(ctx, 2000 if big else 200, fails)
     n += _oracle_ippe(ctx, 3000 if big else 300, fails)
     n += _oracle_ippe_solve(ctx, 500 if big else 40, fails)
@@ -730,6 +904,20 @@ def _replay_case(c):
     elif fn == 'default_pose':
         _oracle_defaults(fails)
         fails = [f for f in fails if f['case'].get('ctor') == c.get('ctor')]
+    elif fn == 'solver_reuse':
+        import numpy as np
+        from cflib.localization.lighthouse_geometry_solver import LighthouseGeometrySolver as GS
+        from cflib.localization.lighthouse_geometry_solver import LighthouseGeometrySolution
+        from cflib.localization.lighthouse_types import LhDeck4SensorPositions, Pose
+        S = np.array(LhDeck4SensorPositions.positions, dtype=float)
+        for f in _solver_reuse_case(c, np, GS, LighthouseGeometrySolution(), S, S.shape[0], Pose):
+            _fail(fails, f[0], c, f[1], f[2], f[3])
+    elif fn == 'pose_misc':
+        import random
+
+        class _M:
+            rng = random.Random(0)
+        _oracle_pose_misc(_M, 50, fails)
     elif fn == 'vector_lists':
         import random
 
